@@ -493,6 +493,8 @@ def split_cases(rng, n):
             cabs = vcab.build_set(folders, files_of(plan), cuts, names, set_id=rng.getrandbits(16))
         except Exception:
             continue
+        if any(struct.unpack_from("<H", cb, 28)[0] == 0 for cb in cabs):
+            continue        # a part without any file entry (cut behind the last member's data) is not a well-formed cabinet
         files = {names[q][0].decode(): cabs[q] for q in range(nparts)}
         STATS["plans"] += 1
         for start in range(nparts):
